@@ -99,6 +99,53 @@ def run(tier, seed, replay=None):
                         chk.violation({"tree": [real, alias + " -> " + real], "file": rel, "way": way},
                                       f"scan does not analyse {rel} but check ({way}) checks it")
             shutil.rmtree(root, ignore_errors=True)
+        # ---- files that consist of exactly one function of 29..33 lines, with and without a final line break: whether a
+        #      function is above 30 lines is decided from the measured length, never from the size of the file
+        #      (seeded change C12-28: check skipped files with at most 30 line-break characters)
+        root = os.path.realpath(os.path.join(tmp, "edge"))
+        os.makedirs(os.path.join(root, "d"))
+        edge = {}
+        for L in (29, 30, 31, 32, 33):
+            for nl in ("", "\n"):
+                tag = f"{L}{'n' if nl else 'x'}"
+                edge[f"p{tag}.py"] = "def edge():\n" + "\n".join(["    x = 1"] * (L - 1)) + nl
+                edge[f"d/c{tag}.c"] = "int edge() {\n" + "\n".join(["  x = 1;"] * (L - 2)) + "\n}" + nl
+                edge[f"d/j{tag}.js"] = "function edge() {\n" + "\n".join(["  x = 1;"] * (L - 2)) + "\n}" + nl
+        for rel, text in edge.items():
+            with open(os.path.join(root, rel), "w", newline="") as f:
+                f.write(text)
+        Configuration.exclude = []
+        old = os.getcwd()
+        os.chdir(root)
+        try:
+            with contextlib.redirect_stdout(io.StringIO()):
+                cb = Scanner.scan_path(Path("."))
+        finally:
+            os.chdir(old)
+        scanned = {p: [(m.unit_name, m.start.line, m.start.column, m.value, m.end.line, m.end.column) for m in e.measurements()] for p, e in cb.files.items()}
+        for rel in sorted(edge):
+            L = int(rel.split("/")[-1][1:3])
+            if [m[3] for m in scanned.get(rel, [])] != [L]:
+                chk.violation({"file": rel, "text": edge[rel]}, f"scan measures {scanned.get(rel)} for a file that is one function of {L} lines")
+                continue
+            for way, args in (("relative file", [rel]), ("root directory", ["."]), ("parent directory", [os.path.dirname(rel) or "."])):
+                try:
+                    got, code = run_check(root, args)
+                except Exception as ex:
+                    chk.violation({"file": rel, "text": edge[rel], "way": way}, f"check ({way}) raised {type(ex).__name__}: {ex}")
+                    continue
+                chk.evaluations += 1
+                chk.count("way: " + way + ", file that is one function at the 30-line boundary")
+                want = [m for m in scanned[rel] if m[3] > 30]
+                gd = dict(got)
+                if rel not in gd:
+                    chk.violation({"file": rel, "text": edge[rel], "way": way}, f"scan analyses {rel} but check ({way}) skips it")
+                elif gd[rel] != want:
+                    chk.violation({"file": rel, "text": edge[rel], "way": way},
+                                  f"check ({way}) lists {gd[rel]} for {rel}, scan measures {want} above 30 lines")
+                else:
+                    chk.nontrivial.add(("edge", rel, way))
+        shutil.rmtree(root, ignore_errors=True)
         for ci in range(90 if tier == "quick" else 2500):
             nodes = c11.gen_tree(rng)
             root = os.path.realpath(os.path.join(tmp, f"t{ci}"))
